@@ -1008,7 +1008,11 @@ class Walker:
                     return
             term = self.ex(st.value)
             if isinstance(st.op, ast.BitOr):
-                return self.accumulate(t.id, term, st)
+                home = self.bind_ctx.get(t.id, ())
+                in_loop = any(fr[0] == 'for' for fr in self.gen[len(home):]) if self.gen[:len(home)] == home else True
+                if in_loop or self.env[t.id][0] == 'acc':
+                    return self.accumulate(t.id, term, st)
+                # outside any loop `x |= y` is just `x = x | y` (an accumulator is only needed for a fan-in built up in a loop)
             op = ir.BINOPS[type(st.op)]
             self.assign_target(ast.Name(id=t.id, ctx=ast.Store()), ('bin', op, self.env[t.id], term), st)
             return
